@@ -20,8 +20,13 @@ def _arms(ctx, qual, opaque=()):
     out = {}
     for p in paths:
         ds = cmp_decisions(p, "pressure")
+        if not isinstance(p.value, Num):
+            raise AnalysisError(f"{qual}: non-numeric return value")
         if not ds:
-            raise AnalysisError(f"{qual}: no pressure comparison found")
+            # the function does not select its result by a comparison of the pressure (min / max / clip of the two
+            # arms, say): kept under a key of its own, so that it cannot agree with a sibling that does branch
+            out[("no pressure predicate", len(out))] = (p.value.nf, "no comparison of pressure")
+            continue
         if not isinstance(p.value, Num):
             raise AnalysisError(f"{qual}: non-numeric return value")
         if len(ds) == 1:
@@ -160,6 +165,9 @@ def check(ctx):
             "for a non-scalar pressure the function returns the same term as for a scalar (entry by entry the exact derivative of the parent)",
             signature="array branch differs", array_only=[nf.show(p_.value.nf, 200) if isinstance(p_.value, Num) else str(p_.value)[:200] for p_ in odd[:2]],
         )
+    from .dtypes import check_masked_calls
+
+    check_masked_calls(ctx, "C13-h", ["bluebonnet.fluids.oil", "bluebonnet.fluids.water", "bluebonnet.fluids.fluid"])
     from .dtypes import check_vectorize
 
     check_vectorize(ctx, "C13-g", ["bluebonnet.fluids.oil", "bluebonnet.fluids.water"])
